@@ -1101,3 +1101,36 @@ Proof.
     intros H; try discriminate H; split; reflexivity.
 Qed.
 End SingleEdge.
+
+(* ====================================================================== *)
+(* heterogeneous pairwise SIS: structural conservation, pair-count consistency *)
+(* ====================================================================== *)
+Section HetPairConsistency.
+Variables (X Nk NkNl : vec) (tau gamma : Q) (Ks : vec).
+Notation kc := (length Ks).
+Notation Sk := (hs_Sk X). Notation Ik := (hs_Ik X Nk).
+Notation SkSl := (hs_SkSl X Ks). Notation SkIl := (hs_SkIl X Ks). Notation IkIl := (hs_IkIl X NkNl Ks).
+(* [S_k] + [I_k] = N_k and [S_k S_l] + [S_k I_l] + [I_k S_l] + [I_k I_l] = N_kl hold by construction *)
+Lemma hpSIS_structural i j :
+  Sk i + Ik i == vnth i Nk /\ SkSl i j + SkIl i j + SkIl j i + IkIl i j == vnth (i * kc + j) NkNl.
+Proof. unfold hs_Ik, hs_IkIl, hs_kc. split; ring. Qed.
+(* the pairs around class k are counted consistently with the class sizes, sum_l ([S_k S_l] + [S_k I_l]) = k [S_k] and
+   sum_l ([I_k S_l] + [I_k I_l]) = k [I_k]: where this holds (and [S_k S_l] is symmetric) it is preserved to first order *)
+Lemma hpSIS_pair_count_consistency k :
+  ~ vnth k Ks * (1 * Sk k) == 0 ->
+  (forall l, (l < kc)%nat -> SkSl l k == SkSl k l) ->
+  sumn kc (fun l => SkSl k l + SkIl k l) == vnth k Ks * Sk k ->
+  sumn kc (fun l => SkIl l k + IkIl k l) == vnth k Ks * Ik k ->
+  sumn kc (fun l => hs_dSkSl X tau gamma Ks k l + hs_dSkIl X NkNl tau gamma Ks k l) == vnth k Ks * hs_dSk X Nk tau gamma Ks k.
+Proof.
+  intros Hnz Hsym HS HI.
+  set (a := (vnth k Ks - 1) * hs_SkI X Ks k / hs_kxSk X Ks k).
+  rewrite (sumn_ext kc _ (fun l => gamma * (SkIl l k + IkIl k l) + ((- tau * a) * (SkSl l k + SkIl k l) + (- tau) * SkIl k l))).
+  2:{ intros l _. unfold hs_dSkSl, hs_dSkIl, hs_SkSlI, hs_ISkIl, a, Qdiv. ring. }
+  rewrite sumn_add, sumn_add, !sumn_scal.
+  rewrite (sumn_ext kc (fun l => SkSl l k + SkIl k l) (fun l => SkSl k l + SkIl k l)) by (intros l Hl; rewrite (Hsym l Hl); reflexivity).
+  rewrite HS, HI. fold (hs_SkI X Ks k). unfold a, hs_dSk, hs_kxSk. rewrite guard0_nz by exact Hnz.
+  change (sumn kc (SkIl k)) with (hs_SkI X Ks k). set (K := vnth k Ks) in *. set (S := Sk k) in *. set (I := Ik k). set (SI := hs_SkI X Ks k).
+  field. split; intro H; apply Hnz; rewrite H; ring.
+Qed.
+End HetPairConsistency.
